@@ -35,6 +35,18 @@ CHECKS = {
    text="Round trip for every C05 shape (expression, DefineConst/DeclareConst/Assert/CheckSatAssuming/GetValue commands, let-variants with binders that shadow declared symbols): same type and solver-proved equivalence for ALL assignments. Value forms are produced by the installed solvers themselves for 11 sorts x boundary values; every response, its token-boundary truncations and single-atom deletions are read by the real reader and must give the exact value or an error (documented todo!() panics counted, accepted).",
    design_ref="DESIGN.md section 4 C14",
    note="Trusted: RefSmt, solvers. parse_get_value_response is not public; value parsing is reached through public parse_expr on the value text and through the live SmtLibSolverCtx::get_value. z3 4.8.12's (lambda ...) form for Bool-valued arrays and quoted let-binder names are outside the property's list of forms."),
+ "C04": dict(
+   technique="SMT validation of the emitted script: the SMT-LIB text recorded from the real UnrollSmtEncoding (written by the real serialize_cmd) is parsed by the z3 5.1 and cvc5 front ends (well-formedness) and proved, in one query per (system, depth, entry point), to give every state/constraint/bad symbol at every step the value of an independent reference unrolling, for all executions",
+   category="translation_validation",
+   text="Generated systems (13 topology patterns incl. every init/next/bad sharing pattern, constant states, next-less states, array state) are unrolled by the real encoder as bmc does (init_at(0) + k unrolls) and as pdr does (init_at(1) + 1..2 unrolls). Any solver (error on the recorded script is a well-formedness violation; faithfulness is one unsat query S /\\ RefUnroll /\\ link => all signals equal at all steps, which quantifies over ALL concrete executions (all inputs at all steps, all free states). Declared-vs-defined status of every signal is checked against the reference so that over-constraining free signals is also caught.",
+   design_ref="DESIGN.md section 4 C04",
+   note="Trusted: RefUnroll (btor2 semantics), RefSmt, solver front ends. cvc5 is skipped for scripts containing the non-standard `as const`. The two ill-formedness defects of the pinned tree were repaired (fix: 08177c3)."),
+ "C09": dict(
+   technique="SMT translation validation of the btor2 writer+reader: real serialize_to_str then parse_str; interface compared positionally by type, every init/next/output/bad/constraint function proved equivalent to the original by solver miter under positional symbol linking; name clause by a further cycle",
+   category="translation_validation",
+   text="Generated systems (13 patterns incl. labels aliasing states, array states, constant states, anonymous inputs, literal shapes) and all 116 shipped btor2 designs: written text must be read back, same number/types of inputs/states/outputs/bads/constraints, each function equivalent for ALL valuations (re-read symbols are linked to the originals by position in the query). Explicit distinct names of the re-read system must survive a further write/read cycle (string comparison, side condition).",
+   design_ref="DESIGN.md section 4 C09",
+   note="Trusted: RefSmt, solvers. States with neither init nor next (turned into inputs by the reader by design) and systems the writer rejects are outside the claim. One genuine name-drift defect is a recorded known finding."),
 }
 ALL = [f"C{i:02d}" for i in range(1, 21)]
 m = {
